@@ -270,6 +270,7 @@ func c08newRouter(max int, mem int) *router.VerifRouter {
 		Upstreams: []router.UpstreamConfig{{Tag: "u", Addr: "udp://127.0.0.1:9"}},
 		Rules:     []router.RuleConfig{{Forward: "u"}},
 		Cache:     router.CacheConfig{MemSize: mem, MaximumTTL: max, IpMarker: c08markerFile()},
+		ECS:       router.ECSConfig{Enabled: true},
 	}
 	r, err := router.VerifRun(cfg)
 	os.Remove(cfg.Cache.IpMarker) // read at start-up only
